@@ -74,3 +74,58 @@ class TagNames:
         if conc(x) == "LN":
             return self.has_ln
         raise Unsupported("membership of %r in tagnames" % (x,))
+
+
+@register
+class EdgeValidatePositions(Contract):
+    fn = "gfapy/line/edge/gfa2/validation.py::Validation.validate_positions"
+    props = ("C04",)
+    doc = ("`$` only on a segment's last position, for a connected E line: InconsistencyError iff for one of the TWO segments (each one is "
+           "checked, whatever the other looks like) the sequence is known and beg or end carries `$` on a value different from the sequence "
+           "length; nothing else is raised; an unconnected line is not checked. (The rule for segments whose sequence is `*` is a known "
+           "finding, see known_findings.jsonl: the declared length slen is not consulted.)")
+
+    def cases(self, ctx):
+        g = ctx.gfapy
+        connected = z3.Bool("connected")
+        known = {n: z3.Bool("sequence%s_known" % n) for n in "12"}
+        slen = {n: z3.Int("sequence%s_length" % n) for n in "12"}
+        P = {f: pos(f) for f in ("beg1", "end1", "beg2", "end2")}
+        e = Obj(g.line.edge.GFA2, "edge")
+        segs = {n: Obj(g.line.segment.GFA2, "segment" + n) for n in "12"}
+        seqs = {n: Obj(None, "sequence" + n) for n in "12"}
+        ols = {n: Obj(g.OrientedLine, "sid" + n) for n in "12"}
+        heap = {e.oid: {}, **{segs[n].oid: {"sequence": seqs[n]} for n in "12"}, **{ols[n].oid: {"line": segs[n]} for n in "12"}, **{seqs[n].oid: {} for n in "12"}}
+        def m_get(E, st, pos_, kw):
+            self_, fn_ = pos_
+            f = conc(fn_)
+            yield ("val", ols[f[-1]] if f.startswith("sid") else P[f], [])
+        def m_len(E, st, pos_, kw):
+            (x,) = pos_
+            for n in "12":
+                if isinstance(x, Obj) and x.oid == seqs[n].oid:
+                    yield ("val", slen[n], []); return
+            raise Unsupported("len of %r" % (x,))
+        def m_placeholder(E, st, pos_, kw):
+            (x,) = pos_
+            for n in "12":
+                if isinstance(x, Obj) and x.oid == seqs[n].oid:
+                    yield ("val", z3.Not(known[n]), []); return
+            raise Unsupported("is_placeholder of %r" % (x,))
+        import builtins
+        from . import common
+        models = dict(common.lastpos_models(ctx))
+        models.update({ctx.fn("gfapy/line/common/field_data.py::FieldData.get"): m_get, g.is_placeholder: m_placeholder, builtins.len: m_len,
+                       ctx.fn("gfapy/line/common/connection.py::Connection.is_connected"): const_model(lambda self_: connected),
+                       builtins.str: const_model(lambda *a: Unknown("text"))})
+        def bad(n):
+            return z3.And(known[n], z3.Or(*[z3.And(P[f + n].last, P[f + n].v != slen[n]) for f in ("beg", "end")]))
+        wrong = z3.And(connected, z3.Or(bad("1"), bad("2")))
+        def post(k, v, st):
+            if k == "raise":
+                return z3.And(z3.BoolVal(v.cls is g.InconsistencyError), wrong)
+            return z3.Not(wrong)
+        sym = dict(connected=connected, **{"sequence%s_known" % n: known[n] for n in "12"}, **{"sequence%s_length" % n: slen[n] for n in "12"}, **P)
+        pre = [slen[n] >= 1 for n in "12"] + [P[f].v >= 0 for f in P]
+        return [Case("positions", [e], post, pre=pre, heap=heap, models=models, symbols=sym, minimize=[slen["1"], slen["2"]],
+                     replay=lambda w: {"target": "bounded.replay_helpers:edge_dollar_cases"}, confirm=battery_confirm)]
